@@ -1,25 +1,25 @@
 """C12: running an accepted program never crashes the interpreter (enumerated crash mechanisms on the expression kernel)."""
 import vcheck
-from E2_common import eq, vtable_queries
+from E2_common import eq, vtable_queries, literal_queries
 import C07
 
 
 def queries(tier):
     if tier == 'quick':
         cases = [(3, 0, 0, 1), (3, 1, 1, 3), (4, 0, 0, 1), (4, 0, 0, 3), (4, 1, 1, 1), (4, 1, 1, 3), (4, 1, 1, 6), (4, 0, 1, 3), (2, 1, 1, 0), (0, 0, 0, 0)]
-        return [C07.one('trap', o, a, b, dv, tier) for o, a, b, dv in cases] + vtable_queries(tier)
+        return [C07.one('trap', o, a, b, dv, tier) for o, a, b, dv in cases] + vtable_queries(tier) + literal_queries(tier)
     qs = C07.binop_queries(tier, 'trap')
-    return qs + vtable_queries(tier)
+    return qs + vtable_queries(tier) + literal_queries(tier)
 
 
 META = dict(
     level_text='CBMC\'s built-in checks (division by zero, MIN/-1 on sdiv/srem, invalid/freed/out-of-bounds dereference) plus "only BlochError may escape" '
                'over the real eval() of one binary expression with full-range symbolic operands, and over the real buildClassTable for a class with '
-               'several virtual overloads of one name (every dispatch entry dereferenced)',
+               'several virtual overloads of one name (every dispatch entry dereferenced), and over eval() of one literal for enumerated boundary texts',
     assumptions=['signed overflow of + - * wraps on x86-64 and is not a crash (not checked); float->int conversions not reached by this kernel',
                  'operator/types/divisor enumerated, dividend and other operands symbolic'],
-    bounds={'kernel': 'one BinaryExpression', 'divisors': '{0,1,-1,2,7,MIN,MAX}', 'virtual overloads of one name': '1..3'},
-    outside=['literal conversion (stoi/stoll/stof on literal text)', 'dispatch tables of generic instantiations (instantiateGeneric) and of overloads with class-typed parameters', 'teardown after an error',
+    bounds={'kernel': 'one BinaryExpression', 'divisors': '{0,1,-1,2,7,MIN,MAX}', 'virtual overloads of one name': '1..3', 'literal texts': 10},
+    outside=['float literal conversion (stof); literals in the analyser and the parser (array sizes)', 'dispatch tables of generic instantiations (instantiateGeneric) and of overloads with class-typed parameters', 'teardown after an error',
              'indices, null references, deep hierarchies: not encoded', 'whole programs'],
 )
 
